@@ -444,9 +444,10 @@ theorem tableGet_tableAdd (key k : Str) (v : Str) (t : List (Str × List Str)) :
         simp [tableAdd, tableGet, h1, this]
       · simp [tableAdd, tableGet, h1, h2, ih]
 
-theorem tableGet_genericTable (sc : Scope) (key : Str) (l : List Rec) :
-    ∀ t, tableGet key (genericTable sc l t)
-      = tableGet key t ++ ((l.filter fun r => r.wrap.f && genericKey sc r == key).map (fImpl sc)) := by
+theorem tableGet_genericTable (sc : Scope) (sel : Rec → Bool) (key : Str) (l : List Rec) :
+    ∀ t, tableGet key (genericTable sc sel l t)
+      = tableGet key t ++
+        ((l.filter fun r => r.wrap.f && sel r && genericKey sc r == key).map (genericMember sc)) := by
   induction l with
   | nil => intro t; simp [genericTable]
   | cons r l ih =>
@@ -454,11 +455,12 @@ theorem tableGet_genericTable (sc : Scope) (key : Str) (l : List Rec) :
     simp only [genericTable]
     rw [ih]
     by_cases hf : r.wrap.f = true
-    · by_cases hk : genericKey sc r = key
-      · simp [hf, hk, tableGet_tableAdd, List.filter_cons]
-      · simp [hf, hk, tableGet_tableAdd, List.filter_cons]
+    · by_cases hs : sel r = true
+      · by_cases hk : genericKey sc r = key
+        · simp [hf, hs, hk, tableGet_tableAdd, List.filter_cons]
+        · simp [hf, hs, hk, tableGet_tableAdd, List.filter_cons]
+      · simp [hf, hs, List.filter_cons]
     · simp [hf, List.filter_cons]
-
 
 /-! ### suffix extensions (`_bufferify`, `fortran_generic` suffixes) -/
 
